@@ -259,6 +259,15 @@ pub fn run_c09(a: &Args) {
                 }
             }
         }
+        // the version text must not matter to the gate: every plain version text, up to the full 8 bytes of the field, x InSim versions 8 / 9 / 10
+        for t in GOOD_VERSION_TEXTS.iter() { for v in [8u8, 9, 10] { for verify in [true, false] {
+            let mut f = mk(v); for j in 0..8 { f[4 + j] = *t.as_bytes().get(j).unwrap_or(&0); }
+            let fr = Frames::new(compressed, vec![f.clone(), mk(9)]); let idx = RepIndex::new(&fr);
+            if fr.frames.len() != 2 { st.fail(format!("[C09] an IS_VER frame with version text {t:?} is not one complete frame for the decoder"), hex(&f)); continue; }
+            let evs = vec![REv::Data(fr.stream()), REv::Eof];
+            run.session("C09", &fr, &idx, verify, &evs, &mut st, &mut out, true);
+            st.bump("version texts (incl. full-width)");
+        } } }
         st.exhaustive.push(format!("all 256 InSim version values x verification on/off x both connections ({} mode)", mode_tag(compressed)));
         // every other kind is never rejected
         for f in &pool {
@@ -387,6 +396,17 @@ pub fn run_c06(a: &Args) {
     }
     st.rule = "Framed::write on the real blocking and tokio connections over a scripted transport that accepts k bytes per call / reports not-ready (Interrupted for blocking, Pending for tokio) / fails: all acceptance patterns for short frames, every kind one byte per call, random sequences of 1..6 packets; non-trivial = a call accepting < 4 bytes occurs".into();
     st.sample("A C 2 | p a0 p a0 a1  -> transport receives 01030000".into());
+    // the WebSocket adaptor as the transport, under back-pressure (real loopback sockets with small buffers, a peer that is slow to read)
+    { let iort = tokio::runtime::Builder::new_multi_thread().worker_threads(2).enable_all().build().unwrap();
+      for compressed in [true, false] {
+        let n = if a.thorough() { 20_000 } else { 5_000 };
+        let (got, want, waited) = crate::c20::backpressure_case(&iort, compressed, n);
+        st.evaluations += want.len() as u64;
+        let m = got.len().min(want.len());
+        if let Some(pos) = (0..m).find(|i| got[*i] != want[*i]) { st.fail(format!("[C06 websocket] under back-pressure ({waited} writes had to wait) the peer's message #{pos} is {} but the frame of write #{pos} is {}", hex(&got[pos]), hex(&want[pos])), format!("backpressure {} {n}", mode_tag(compressed))); }
+        else if got.len() > want.len() { st.fail(format!("[C06 websocket] the peer saw {} messages for {} writes", got.len(), want.len()), format!("backpressure {} {n}", mode_tag(compressed))); }
+        st.notes.push(format!("websocket back-pressure run ({} mode): {} writes, {} waited, {} messages compared", mode_tag(compressed), want.len(), waited, m));
+      } }
     { let mut r2 = Rng::new(a.seed ^ 0xC06); let c1 = crate::conv::sync_conversations("C06", a, &mut r2, "ka", &mut st, &mut out); let c2 = crate::conv::async_conversations("C06", a, &mut r2, &mut st, &mut out); st.distinct_nontrivial += (c1.distinct.len() + c2.distinct.len()) as u64; }
     out.finish(&st);
 }
